@@ -2034,3 +2034,48 @@ def rule_no_order_dependent_pruning(rep: Report, repo: Repo, rule: str) -> None:
     if got != {"first_wins": 1, "sorted_first_wins": 0, "stateless": 0}:
         raise AnalysisError(f"positive control controls/first_wins.py: {got}")
     rep.ok(rule, "controls/first_wins.py", "positive control: 1 hit in first_wins, 0 in the sorted and the stateless twin")
+
+
+def rule_symlinked_subdirs(rep: Report, repo: Repo, rule: str) -> None:
+    """os.walk(top, followlinks=F) yields symbolic links to directories among the sub-directory names whatever F is, but visits
+    them only when F is true.  A directory list that feeds the toctree ('<sub>/index.rst') must therefore not contain links the
+    walk is not going to follow: either followlinks is the constant True, or the links are pruned - under 'not F' or always -
+    before the list is used."""
+    rep.rule(rule, "unless os.walk follows links unconditionally, the walk body removes os.path.islink(<root>/<sub>) entries from the "
+                   "directory list (guarded by nothing or by the negated follow switch) before the toctree is built: every listed "
+                   "'<sub>/index.rst' belongs to a directory the walk visits")
+    dm = DocumentModel(repo)
+    where = f"{MOD}:document"
+    walk_call = dm.walk.iter
+    while isinstance(walk_call, ast.Call) and call_name(walk_call) in ("sorted", "list", "iter") and walk_call.args:
+        walk_call = walk_call.args[0]
+    if not (isinstance(walk_call, ast.Call) and call_name(walk_call) == "os.walk"):
+        raise AnalysisError("anchor vanished: the walk of document() is not an os.walk(...) call")
+    fl = next((k.value for k in walk_call.keywords if k.arg == "followlinks"),
+              walk_call.args[3] if len(walk_call.args) > 3 else None)
+    if isinstance(fl, ast.Constant) and fl.value is True:
+        rep.ok(rule, where, "os.walk(..., followlinks=True): every listed sub-directory is visited")
+        return
+    flag = norm(fl) if fl is not None else None
+    tf, td, page = emission_loops(dm)
+    order = {id(x): i for i, x in enumerate(_dfs_nodes(dm.fn))}
+    first_use = min((order[id(x)] for x in td), default=None)
+    pruned = False
+    for c in calls_in(dm.walk):
+        if not (isinstance(c.func, ast.Attribute) and c.func.attr == "remove" and norm(c.func.value) == dm.dirs_var and c.args):
+            continue
+        from ..model import guard_atoms
+        gs = [g for g in guards_of(dm.fn, c, dm.parents) if any(g.test is x for x in ast.walk(dm.walk))]
+        atoms = guard_atoms(gs)
+        link = {(t, pol) for t, pol in atoms if pol and t.startswith("os.path.islink(") and norm(c.args[0]) in t and dm.root_var in t}
+        if not link:
+            continue
+        ok_guard = all(flag is not None and t == flag and not pol for t, pol in atoms - link)
+        before = first_use is None or order[id(c)] < first_use
+        if ok_guard and before:
+            pruned = True
+    rep.check(pruned, rule, where, f"os.walk(..., followlinks={flag}) with symlinked sub-directories pruned: {pruned}",
+              f"os.walk lists symbolic links to directories even when followlinks ({flag}) is false, and document() keeps them in "
+              f"the directory list: the parent's toctree names '<link>/index.rst', which is never written because the walk does not "
+              f"enter the link", witness="cminx -r -o out dir   where dir/linked -> ../other holds a .cmake file (follow_symlinks: false, the default)",
+              key=f"{rule}|symlinked-subdirs")
